@@ -4,7 +4,7 @@
    a sample of every run (the in-kernel sample), so the extraction itself is checked. *)
 From Coq Require Import List Ascii String Bool Arith NArith ZArith.
 Require Import Show.
-Require V1 V5 V6 V3 V11 A1 D3 M6 M6b GS R2 R2u AR AR2 AR3 ARu CL TS3 CX SchemaDefs Schema_gen H12 H13 S11 D16 DEB U20 U20d.
+Require V1 V5 V6 V3 V11 V13 A1 D3 M6 M6b GS R2 R2u PU ACC2 AR AR2 AR3 ARu CL TS3 CX SchemaDefs Schema_gen H12 H13 S11 D16 DEB U20 U20d.
 Import ListNotations.
 Open Scope string_scope.
 Open Scope list_scope.
@@ -40,6 +40,16 @@ Definition run_version (op : string) (a : list str) : option str :=
   else if op =? "vparse" then
     Some (match V11.parse_u (g 0) with Some v => lit "ok " ++ show_v3 v | None => lit "err" end)
   else if op =? "vstring" then Some (hx (V3.to_string (mkv3 (g 0) (g 1) (g 2))))
+  else if op =? "vacc" then
+    (let v := mkv3 (g 0) (g 1) (g 2) in
+     Some (unwords [hx (V3.without_epoch v); show_bool (V13.is_native v); show_bool (V13.is_empty v)]))
+  else if op =? "vnoepoch" then
+    Some (match V11.parse_u (g 0) with
+          | None => lit "err"
+          | Some v => let t := V3.without_epoch v in
+                      lit "ok " ++ hx t ++ sp1 ++
+                      match V11.parse_u t with Some w => lit "ok " ++ show_v3 w | None => lit "err" end
+          end)
   else if op =? "vroundtrip" then
     Some (match V11.parse_u (g 0) with
           | None => lit "err"
@@ -158,9 +168,7 @@ Fixpoint next_loop (fuel : nat) (ls : list str) (acc : list R2.para) : list R2.p
            end
   end.
 (* Paragraph.Set *)
-Definition pset (p : R2.para) (k v : str) : R2.para :=
-  if R2.mem k (R2.values p) then {| R2.order := R2.order p; R2.values := R2.setv k v (R2.values p) |}
-  else {| R2.order := R2.order p ++ [k]; R2.values := R2.values p ++ [(k, v)] |}.
+Definition pset := PU.pset.
 Fixpoint para_of_args (a : list str) (p : R2.para) : R2.para :=
   match a with k :: v :: r => para_of_args r (pset p k v) | _ => p end.
 (* Encoder.Encode once per paragraph *)
@@ -179,6 +187,20 @@ Definition run_deb822 (op : string) (a : list str) : option str :=
     let ls := GS.lines_of (g 0) in
     let '(ps, eof) := next_loop (S (List.length ls)) ls [] in
     Some (show_paras ps ++ (if eof then lit " eof" else lit " err"))
+  else if op =? "tondemand" then
+    (let fields := if D3.seq (g 0) (lit "binary_index")
+                   then [lit "Depends"; lit "Pre-Depends"; lit "Suggests"; lit "Breaks"; lit "Replaces"; lit "Conflicts"; lit "Built-Using"]
+                   else [lit "Build-Depends"; lit "Build-Depends-Arch"; lit "Build-Depends-Indep"] in
+     Some (match R2u.read_all_u (g 1) with
+           | Some (p :: _) => lit "ok " ++ unwords (map (fun f => f ++ lit "=" ++ show_dep (ACC2.get_optional_dep f p)) fields)
+           | _ => lit "err" end))
+  else if op =? "pset" then Some (show_para (para_of_args a R2.empty_para))
+  else if op =? "pupdate" then
+    (let n := arg_nat (g 0) in
+     let rest := tl a in
+     let p := para_of_args (firstn (2 * n) rest) R2.empty_para in
+     let q := para_of_args (skipn (2 * n) rest) R2.empty_para in
+     Some (show_para (PU.update p q)))
   else if op =? "wpara" then Some (hx (R2u.write_para_u (para_of_args a R2.empty_para)))
   else if op =? "wcycle" then
     Some (match R2u.read_all_u (g 0) with
